@@ -104,17 +104,15 @@ def run(ctx):
         runs = runs[ctx.seed % stride::stride]
         ctx.exhaustive = False
     runs += extra         # seeded random data sets beyond the enumerated scope
-    traces = core.pmap(cc.record, runs, chunk=100)
-    ctx.notes["runs_refused_for_their_element_type"] = sum(1 for tr in traces if tr.get("rejected_input"))
-    traces = [tr for tr in traces if not tr.get("rejected_input")]
-    coarse = 0
-    for tr in traces:
+    coarse = [0]
+
+    def each(tr):
         pr = [e for e in tr["events"] if e["ev"] == "prop"]
-        coarse += sum(1 for e in tr["events"] if e["ev"] == "sweep" and e.get("coarse"))
+        coarse[0] += sum(1 for e in tr["events"] if e["ev"] == "sweep" and e.get("coarse"))
         nontriv = any(e["accepted"] for e in pr) and any(not e["accepted"] for e in pr)
         ctx.case((str(tr["pts"]), tr["metric"], tr["algo"], str(tr["init"]), str(tr["props"]), tr["sweeps"], tr["seed"],
                   tr["form"], tr["k"], tr["cut"]) if nontriv else None,
                  sample={k: tr[k] for k in ("pts", "metric", "algo", "init", "props", "sweeps", "form")} |
                         {"events": [e for e in tr["events"] if e["ev"] == "prop"][:4]} if nontriv else None)
-    ctx.notes["coarse_sweeps(no DEBUG records)"] = coarse
-    ce.judge(ctx, ce.validate(ctx, traces, "k-medoids / k-hybrid traces"))
+    ce.record_validate_judge(ctx, runs, each, "k-medoids / k-hybrid traces")
+    ctx.notes["coarse_sweeps(no DEBUG records)"] = coarse[0]
